@@ -210,7 +210,7 @@ def run(pid, tier, seed, t0):
         if st['kind'] == 'proof':
             # an inductive invariant discharged by Apalache (about the design, unbounded): a failure is a machinery error
             t1 = time.time()
-            r = core.sh('%s %s' % (os.path.join(core.SPEC, st['script']), os.path.join(core.OUT, 'apalache-' + tag)))
+            r = core.sh('%s %s %s' % (os.path.join(core.SPEC, st['script']), os.path.join(core.OUT, 'apalache-' + tag), st.get('module', '')))
             ok = r.returncode == 0 and r.stdout.count('EXITCODE: OK') == st['obligations']
             if not ok:
                 raise core.MachineryError('Apalache did not discharge %s:\n%s' % (st['script'], r.stdout[-1500:]))
